@@ -320,7 +320,7 @@ def handle (st : DState) (line : String) : DState × String :=
     let es := Namespace.listMatching st.ns.names (parseNats ref) (parseNats pat)
     (st, if es.isEmpty then "-" else " ".intercalate (es.map (fun e => s!"{showNats e.name}|{if e.exists_ then 1 else 0}|{if e.hasChildren then 1 else 0}")))
   | ["ns", "ids"] => (st, s!"{st.ns.inboxId} " ++ " ".intercalate (st.ns.boxes.map (fun b => s!"{showNats b.1}={b.2}")))
-  | ["wild", ci, pat, name] => (st, if Namespace.wild (ci == "1") (parseNats pat) (parseNats name) then "1" else "0")
+  | ["wild", ci, pat, name] => (st, if Namespace.wildDP (ci == "1") (parseNats pat) (parseNats name) then "1" else "0")
   | ["sieve", "reset", maxLen, tls] => ({ st with sconn := ⟨none, tls == "1", maxLen.toNat!⟩, sstore := [] }, "ok")
   | ["sieve", "newconn", maxLen, tls] => ({ st with sconn := ⟨none, tls == "1", maxLen.toNat!⟩ }, "ok")
   | ["sieve", "step", c] =>
